@@ -1211,8 +1211,12 @@ class Executor(Generic[TContext]):
 
         # validation only allows equivalent streams on multiple fields, so it is
         # safe to only check the first field_node for the stream directive
+        first_field_details = field_details_list[0]
         stream = get_directive_values(
-            GraphQLStreamDirective, field_details_list[0].node, self.variable_values
+            GraphQLStreamDirective,
+            first_field_details.node,
+            self.variable_values,
+            first_field_details.fragment_variable_values,
         )
 
         if not stream or stream.get("if") is False:
@@ -1231,7 +1235,8 @@ class Executor(Generic[TContext]):
             raise TypeError(msg)
 
         streamed_field_details_list: FieldDetailsList = [
-            FieldDetails(field_details.node, None)
+            # the streamed items are completed in the variable scope of the field
+            FieldDetails(field_details.node, None, field_details.fragment_variable_values)
             for field_details in field_details_list
         ]
 
